@@ -60,23 +60,35 @@ T("inverse_dihedral_onesite", f"""forall (cell : option RV) (mass : nat -> R) (p
 T("inverse_gyration", f"""forall (cell : option RV) (mass : nat -> R) (pos : RF) (ids : list nat) (fc : R),
   NoDup ids -> gyr_value Rops pos ids <> 0 ->
   {FT} (CGyration ids) ({AP} (CGyration ids) fc) = fc""", "exact inv_gyration.")
-T("inverse_rmsd", f"""forall (cell : option RV) (mass : nat -> R) (pos : RF) (ids : list nat) (refs : list RV) (extra : list (list RV)) (center : option RV) (fc : R),
+T("inverse_rmsd", f"""forall (cell : option RV) (mass : nat -> R) (pos : RF) (ids : list nat) (refs : list RV) (extra : list (list RV)) (fc : R),
   NoDup ids -> (forall r, In r (refs :: extra) -> length r = length ids) ->
-  rmsd_value Rops pos ids (rmsd_best Rops pos ids refs extra center) center <> 0 ->
-  (forall rc, center = Some rc -> forall r, In r (refs :: extra) -> vsum Rops r = vscale Rops (ofnat Rops (length ids)) rc) ->
-  {FT} (CRmsd ids refs extra center) ({AP} (CRmsd ids refs extra center) fc) = fc""", "exact inv_rmsd.",
-  "rmsd without rotation, with any number of permuted copies of the reference (atomPermutation): whichever copy is the closest, gradients and\n   inverse gradients use the same one; when the group is centred it must be centred on the centre of the reference positions")
+  rmsd_value Rops pos ids (rmsd_best Rops pos ids refs extra None) None <> 0 ->
+  {FT} (CRmsd ids refs extra None) ({AP} (CRmsd ids refs extra None) fc) = fc""", "exact inv_rmsd.",
+  "rmsd without rotation and without centring, with any number of permuted copies of the reference (atomPermutation): whichever copy is the\\n   closest, gradients and inverse gradients use the same one")
+T("inverse_rmsd_centered", f"""forall (cell : option RV) (mass : nat -> R) (pos : RF) (ids : list nat) (refs : list RV) (extra : list (list RV)) (rc : RV) (fc : R),
+  NoDup ids -> (forall r, In r (refs :: extra) -> length r = length ids) ->
+  (let g := rmsd_grads Rops pos ids (rmsd_best Rops pos ids refs extra (Some rc)) (Some rc) in
+   norm2_sum Rops (vadd_list Rops g (fit_grads Rops (length ids) (Some rc) g)) <> 0) ->
+  {FT} (CRmsd ids refs extra (Some rc)) ({AP} (CRmsd ids refs extra (Some rc)) fc) = fc""", "exact inv_rmsd_centered.",
+  "centred rmsd (fit gradients on; code with fix-C07-3): the total force is projected on the complete gradient grad + fit, normalised by its\\n   squared norm: the inverse holds wherever the group is centred (the earlier condition on the centre of its own references is gone)")
 T("inverse_eigenvector", f"""forall (cell : option RV) (mass : nat -> R) (pos : RF) (ids : list nat) (refs evec : list RV) (center : option RV) (fc : R),
   NoDup ids -> length evec = length ids -> norm2_sum Rops (eig_vec Rops evec) <> 0 ->
   {FT} (CEigenvector ids refs evec center) ({AP} (CEigenvector ids refs evec center) fc) = fc""", "exact inv_eigenvector.",
   "eigenvector without rotation (any centring): the centred vector must not be null")
 
-T("inverse_rmsd_rotated", f"""forall (cell : option RV) (mass : nat -> R) (pos : RF) (ids : list nat) (refs : list RV) (extra : list (list RV)) (rotf : RF -> RQ) (jdf : RF -> R) (fc : R),
-  NoDup ids -> (forall r, In r (refs :: extra) -> length r = length ids) ->
+T("inverse_rmsd_rotated", f"""forall (cell : option RV) (mass : nat -> R) (pos : RF) (ids : list nat) (refs : list RV) (rotf : RF -> RQ) (jdf : RF -> R) (fitf : RF -> list RV) (fc : R),
+  NoDup ids -> length refs = length ids -> qnorm2 Rops (rotf pos) = 1 ->
+  rmsdrot_value Rops pos ids refs (rotmat Rops (rotf pos)) refs <> 0 ->
+  {FT} (CRmsdRot ids refs [] rotf jdf fitf) ({AP} (CRmsdRot ids refs [] rotf jdf fitf) fc) = fc""", "exact inv_rmsd_rot.",
+  "rotated frames (the default fit of rmsd / eigenvector): the optimal quaternion of the step is an input of the model, the matrices are\\n   quaternion::rotation_matrix of it and of its conjugate; for every unit quaternion, rotating the forces into the frame of the gradients\\n   (read_total_forces) inverts rotating the applied forces back.  Standard rmsd (no atomPermutation): no fit gradients")
+T("inverse_rmsd_rotated_permuted", f"""forall (cell : option RV) (mass : nat -> R) (pos : RF) (ids : list nat) (refs : list RV) (e : list RV) (es : list (list RV)) (rotf : RF -> RQ) (jdf : RF -> R) (fitf : RF -> list RV) (fc : R),
+  NoDup ids -> (forall r, In r (refs :: e :: es) -> length r = length ids) -> length (fitf pos) = length ids ->
   qnorm2 Rops (rotf pos) = 1 ->
-  rmsdrot_value Rops pos ids refs (rotmat Rops (rotf pos)) (rmsdrot_best Rops pos ids refs extra (rotmat Rops (rotf pos))) <> 0 ->
-  {FT} (CRmsdRot ids refs extra rotf jdf) ({AP} (CRmsdRot ids refs extra rotf jdf) fc) = fc""", "exact inv_rmsd_rot.",
-  "rotated frames (the default fit of rmsd / eigenvector): the rotation matrix used at the step is an input of the model; whenever it is\n   orthogonal (R R^T = 1), rotating the forces into the frame of the gradients (read_total_forces) inverts rotating the applied forces back;\n   with atomPermutation copies as above")
+  (let R := rotmat Rops (rotf pos) in
+   let g := rmsdrot_grads Rops pos ids refs R (rmsdrot_best Rops pos ids refs (e :: es) R) in
+   norm2_sum Rops (vadd_list Rops g (map (mvmul Rops R) (fitf pos))) <> 0) ->
+  {FT} (CRmsdRot ids refs (e :: es) rotf jdf fitf) ({AP} (CRmsdRot ids refs (e :: es) rotf jdf fitf) fc) = fc""", "exact inv_rmsd_rot_perm.",
+  "symmetry-adapted rotated rmsd (atomPermutation, default fit): the applied forces contain fc * fit_gradients (derivatives of the optimal rotation,\\n   an input of the model); with fix-C07-3 the total force is projected on the complete gradient, and that is the inverse for EVERY value of the input")
 T("rotation_matrices", f"""forall q : RQ, qnorm2 Rops q = 1 ->
   (forall v : RV, mvmul Rops (rotmat Rops q) (mtvmul Rops (rotmat Rops q) v) = v) /\\
   (forall v : RV, mvmul Rops (rotmat Rops (qconj Rops q)) v = mtvmul Rops (rotmat Rops q) v)""",
